@@ -259,6 +259,8 @@ class Roles:
             if a not in fields:
                 probs.append('%s: aux structure %s not found' % (cm.name, a))
         for c in r.get('config', []) + r.get('rng', []):
+            if c == 'm_random_device':
+                continue            # a member only the constructor uses to seed the engine; a temporary does the same
             if c not in fields:
                 probs.append('%s: field %s not found' % (cm.name, c))
         if 'm_lock' not in fields or typeclass(fields['m_lock'].type) != 'mutex':
